@@ -33,8 +33,10 @@ fn ipv6_case(proto: Option<u8>, m: usize, n: usize, lists: bool) {
     let a4 = any_ip4();
     let a6 = any_ip6();
     let d6 = any_ip6();
+    // single-family lists (a list holding both an IPv4 and an IPv6 address makes the container
+    // model explode - measured on the authorised-MAC lemma: 300 s+ against 4 s)
+    let _ = a4;
     let mut s_set = HashSet::new();
-    s_set.insert(IpAddr::V4(a4));
     s_set.insert(IpAddr::V6(a6));
     let mut d_set = HashSet::new();
     d_set.insert(IpAddr::V6(d6));
@@ -272,7 +274,7 @@ fn c04_ipv6_icmp_33() {
 //# tier: quick
 //# encodes: layer_3::ipv6::repl
 //# encodes: pnet_packet checksum helpers (icmpv6::checksum, tcp::ipv6_checksum, udp::ipv6_checksum)
-//# bounds: 40-byte IPv6 request header symbolic (version, traffic class, flow label, payload length, hop limit free; source and destination address: octets 0, 14, 15 symbolic, others zero), next header = any next header outside {58,6,17}, 4 transport bytes in the request; layer-4 reply of 8 arbitrary bytes or silence (ICMPv6: echo-style reply, or type 136 + solicited target); self-IP list absent or {a4,a6} symbolic; deny list absent or {d6} symbolic
+//# bounds: 40-byte IPv6 request header symbolic (version, traffic class, flow label, payload length, hop limit free; source and destination address: octets 0, 14, 15 symbolic, others zero), next header = any next header outside {58,6,17}, 4 transport bytes in the request; layer-4 reply of 8 arbitrary bytes or silence (ICMPv6: echo-style reply, or type 136 + solicited target); self-IP list absent or {a6} symbolic; deny list absent or {d6} symbolic
 //# stubs: layer_4::{icmpv6,tcp,udp}::repl -> None or a transport packet of 8 arbitrary bytes (UDP: length field = 8; ICMPv6 NA: the returned target belongs to the self-IP list when one is configured - lemma c05_nd_*)
 //# out: extension headers (not parsed by the implementation); other reply lengths
 //# known: c02.icmpv6_echo_foreign_destination
@@ -292,7 +294,7 @@ fn c02_ipv6_other_proto() {
 //# tier: thorough
 //# encodes: layer_3::ipv6::repl
 //# encodes: pnet_packet checksum helpers (icmpv6::checksum, tcp::ipv6_checksum, udp::ipv6_checksum)
-//# bounds: 40-byte IPv6 request header symbolic (version, traffic class, flow label, payload length, hop limit free; source and destination address: octets 0, 14, 15 symbolic, others zero), next header = TCP, 19 transport bytes in the request; layer-4 reply of 20 arbitrary bytes or silence (ICMPv6: echo-style reply, or type 136 + solicited target); self-IP list absent or {a4,a6} symbolic; deny list absent or {d6} symbolic
+//# bounds: 40-byte IPv6 request header symbolic (version, traffic class, flow label, payload length, hop limit free; source and destination address: octets 0, 14, 15 symbolic, others zero), next header = TCP, 19 transport bytes in the request; layer-4 reply of 20 arbitrary bytes or silence (ICMPv6: echo-style reply, or type 136 + solicited target); self-IP list absent or {a6} symbolic; deny list absent or {d6} symbolic
 //# stubs: layer_4::{icmpv6,tcp,udp}::repl -> None or a transport packet of 20 arbitrary bytes (UDP: length field = 20; ICMPv6 NA: the returned target belongs to the self-IP list when one is configured - lemma c05_nd_*)
 //# out: extension headers (not parsed by the implementation); other reply lengths
 //# known: c02.icmpv6_echo_foreign_destination
@@ -312,7 +314,7 @@ fn c01_ipv6_tcp_short() {
 //# tier: thorough
 //# encodes: layer_3::ipv6::repl
 //# encodes: pnet_packet checksum helpers (icmpv6::checksum, tcp::ipv6_checksum, udp::ipv6_checksum)
-//# bounds: 40-byte IPv6 request header symbolic (version, traffic class, flow label, payload length, hop limit free; source and destination address: octets 0, 14, 15 symbolic, others zero), next header = UDP, 7 transport bytes in the request; layer-4 reply of 8 arbitrary bytes or silence (ICMPv6: echo-style reply, or type 136 + solicited target); self-IP list absent or {a4,a6} symbolic; deny list absent or {d6} symbolic
+//# bounds: 40-byte IPv6 request header symbolic (version, traffic class, flow label, payload length, hop limit free; source and destination address: octets 0, 14, 15 symbolic, others zero), next header = UDP, 7 transport bytes in the request; layer-4 reply of 8 arbitrary bytes or silence (ICMPv6: echo-style reply, or type 136 + solicited target); self-IP list absent or {a6} symbolic; deny list absent or {d6} symbolic
 //# stubs: layer_4::{icmpv6,tcp,udp}::repl -> None or a transport packet of 8 arbitrary bytes (UDP: length field = 8; ICMPv6 NA: the returned target belongs to the self-IP list when one is configured - lemma c05_nd_*)
 //# out: extension headers (not parsed by the implementation); other reply lengths
 //# known: c02.icmpv6_echo_foreign_destination
@@ -332,7 +334,7 @@ fn c01_ipv6_udp_short() {
 //# tier: quick
 //# encodes: layer_3::ipv6::repl
 //# encodes: pnet_packet checksum helpers (icmpv6::checksum, tcp::ipv6_checksum, udp::ipv6_checksum)
-//# bounds: 40-byte IPv6 request header symbolic (version, traffic class, flow label, payload length, hop limit free; source and destination address: octets 0, 14, 15 symbolic, others zero), next header = ICMPv6, 3 transport bytes in the request; layer-4 reply of 8 arbitrary bytes or silence (ICMPv6: echo-style reply, or type 136 + solicited target); self-IP list absent or {a4,a6} symbolic; deny list absent or {d6} symbolic
+//# bounds: 40-byte IPv6 request header symbolic (version, traffic class, flow label, payload length, hop limit free; source and destination address: octets 0, 14, 15 symbolic, others zero), next header = ICMPv6, 3 transport bytes in the request; layer-4 reply of 8 arbitrary bytes or silence (ICMPv6: echo-style reply, or type 136 + solicited target); self-IP list absent or {a6} symbolic; deny list absent or {d6} symbolic
 //# stubs: layer_4::{icmpv6,tcp,udp}::repl -> None or a transport packet of 8 arbitrary bytes (UDP: length field = 8; ICMPv6 NA: the returned target belongs to the self-IP list when one is configured - lemma c05_nd_*)
 //# out: extension headers (not parsed by the implementation); other reply lengths
 //# known: c02.icmpv6_echo_foreign_destination
@@ -415,7 +417,7 @@ fn c20_ipv6_events_icmp() {
 //# tier: thorough
 //# timeout: 1400
 //# encodes: layer_3::ipv6::repl (scope filters and address mirroring)
-//# bounds: IPv6 request header symbolic, protocol 58, 8 transport bytes; layer-4 reply of 8 arbitrary bytes or silence; self-IP list absent or {a4,a6} symbolic; deny list absent or one symbolic address; transport checksums are NOT asserted here (decided by c04_ipv6_*)
+//# bounds: IPv6 request header symbolic, protocol 58, 8 transport bytes; layer-4 reply of 8 arbitrary bytes or silence; self-IP list absent or {a6} symbolic; deny list absent or one symbolic address; transport checksums are NOT asserted here (decided by c04_ipv6_*)
 //# stubs: layer-4 entry points -> None or a transport packet of 8 arbitrary bytes
 //# known: c02.icmpv6_echo_foreign_destination
 //# known: c04.udp6_zero_checksum
@@ -436,7 +438,7 @@ fn c02_ipv6_scope_icmp() {
 //# tier: thorough
 //# timeout: 1400
 //# encodes: layer_3::ipv6::repl (scope filters and address mirroring)
-//# bounds: IPv6 request header symbolic, protocol 17, 8 transport bytes; layer-4 reply of 8 arbitrary bytes or silence; self-IP list absent or {a4,a6} symbolic; deny list absent or one symbolic address; transport checksums are NOT asserted here (decided by c04_ipv6_*)
+//# bounds: IPv6 request header symbolic, protocol 17, 8 transport bytes; layer-4 reply of 8 arbitrary bytes or silence; self-IP list absent or {a6} symbolic; deny list absent or one symbolic address; transport checksums are NOT asserted here (decided by c04_ipv6_*)
 //# stubs: layer-4 entry points -> None or a transport packet of 8 arbitrary bytes
 //# known: c02.icmpv6_echo_foreign_destination
 //# known: c04.udp6_zero_checksum
@@ -450,4 +452,46 @@ fn c02_ipv6_scope_icmp() {
 #[kani::stub(crate::layer_4::udp::repl, crate::verif_util::l4_udp_stub)]
 fn c02_ipv6_scope_udp() {
     ipv6_case(Some(17), 8, 8, true)
+}
+
+/// targeted deny-list instance: the source address IS the denied address (by construction), the
+/// next header is arbitrary (incl. ICMPv6, TCP, UDP), no self-IP list: nothing may be answered and
+/// layer 4 must not be reached
+fn ipv6_denied_source() {
+    let mut buf: [u8; 48] = kani::any();
+    let d6: [u8; 16] = kani::any();
+    let mut i = 0;
+    while i < 16 {
+        buf[8 + i] = d6[i];
+        i += 1;
+    }
+    let ip_req = Ipv6Packet::new(&buf[..48]).unwrap();
+    let mut d_set = HashSet::new();
+    d_set.insert(IpAddr::V6(Ipv6Addr::from(d6)));
+    let mut masscanned = ms_plain([0, 0], any_mac());
+    masscanned.remote_ip_deny_list = Some(&d_set);
+    l4_rec().cfg_len = 8;
+    let mut ci = ClientInfo::new();
+    let r = repl(&ip_req, &masscanned, &mut ci);
+    assert!(r.is_none(), "C02: IPv6 packet from a denied source answered");
+    assert!(l4_rec().calls == 0, "C02: IPv6 packet from a denied source reached layer 4");
+    kani::cover!(buf[6] == 58, "denied ICMPv6 dropped");
+    kani::cover!(buf[6] == 6, "denied TCP dropped");
+}
+
+//# harness: c02_ipv6_denied_source
+//# props: C02 C01
+//# tier: quick
+//# encodes: layer_3::ipv6::repl (deny-list filter)
+//# bounds: 40-byte IPv6 header + 8 transport bytes, all symbolic incl. the next header (ICMPv6, TCP, UDP, anything); deny list = {d6} with d6 symbolic and the packet's source address equal to it; no self-IP list
+//# stubs: layer_4::{icmpv6,tcp,udp}::repl -> contract stubs (must not be reached)
+//# cover: denied ICMPv6 dropped
+//# cover: denied TCP dropped
+#[kani::proof]
+#[kani::unwind(44)]
+#[kani::stub(crate::layer_4::icmpv6::repl, crate::verif_util::l4_icmpv6_stub)]
+#[kani::stub(crate::layer_4::tcp::repl, crate::verif_util::l4_tcp_stub)]
+#[kani::stub(crate::layer_4::udp::repl, crate::verif_util::l4_udp_stub)]
+fn c02_ipv6_denied_source() {
+    ipv6_denied_source()
 }
